@@ -197,6 +197,70 @@ def json_render_pass(ctx, res, extra_wires):
     return texts
 
 
+# ---- JSON texts that spell characters with ESCAPES (what json.dumps(ensure_ascii=True), PHP's json_encode, ... emit): JSON text is read
+#      by the JSON grammar -- a surrogate pair is one character, \/ is a slash -- in every carrier; no true / false / null in the documents
+ESC_SRC = """
+import dataclasses, typing
+@dataclasses.dataclass
+class Post:
+    title: str
+    tags: typing.List[str]
+    note: str = "n"
+"""
+ESC_CASES = [("typing.List[str]", ["\U0001f600"]), ("typing.Dict[str, int]", {"\U0001d11e": 1}), ("typing.Tuple[int, str]", [1, "\U0001f680"]),
+             ("Post", {"title": "hi \U0001f600", "tags": ["x"], "note": "n"}), ("typing.List[str]", ["http://example.com/a"]),
+             ("typing.Dict[str, typing.List[str]]", {"k/\U0001f600": ["\u00e9", "a/b"]}), ("typing.List[Post]", [{"title": "\U0001f600/", "tags": []}])]
+
+
+def _esc_child(case):
+    import json as _json
+    import sys
+    import types
+    import warnings
+    warnings.simplefilter("ignore")
+    import typelib
+    from typelib import serdes
+    mod = types.ModuleType("vm_c14_esc")
+    sys.modules["vm_c14_esc"] = mod
+    ns = mod.__dict__
+    exec(ESC_SRC, ns)
+    t, m = eval(case[0], ns), case[1]
+    texts = [_json.dumps(m), _json.dumps(m).replace("/", "\\/"), _json.dumps(m, ensure_ascii=False).replace("/", "\\/")]
+    bad = []
+    want = repr(typelib.unmarshal(t, m))
+    for txt in texts:
+        assert _json.loads(txt) == m
+        for name, mk in (("str", lambda s_: s_), ("bytes", lambda s_: s_.encode()), ("bytearray", lambda s_: bytearray(s_.encode())),
+                         ("memoryview(bytes)", lambda s_: memoryview(s_.encode())), ("memoryview(bytearray)", lambda s_: memoryview(bytearray(s_.encode())))):
+            try:
+                got = repr(typelib.unmarshal(t, mk(txt)))
+            except Exception as e:  # noqa: BLE001
+                got = f"raised {type(e).__name__}"
+            if got != want:
+                bad.append(f"unmarshal({case[0]}, {name} {txt!r}) = {got[:120]}, from the decoded value: {want[:120]}")
+            for fname, f in (("load", serdes.load), ("strload", serdes.strload)):
+                try:
+                    lv = f(mk(txt))
+                except Exception as e:  # noqa: BLE001
+                    lv = f"raised {type(e).__name__}"
+                if lv != m:
+                    bad.append(f"serdes.{fname}({name} {txt!r}) = {lv!r:.120}, json.loads gives {m!r:.120}")
+    return bad
+
+
+def escaped_json_probe(res):
+    from .. import iso
+    outs = iso.map_isolated(_esc_child, ESC_CASES, timeout=60.0)
+    for case, bad in zip(ESC_CASES, outs):
+        if not isinstance(bad, list):
+            raise RuntimeError(f"harness: escaped-JSON probe failed: {case}: {bad}")
+        res.case({"ann": case[0], "wire": case[1], "family": "escaped-json-text"}, True)
+        if bad:
+            res.failures.append({"what": bad[0] + (f" (+{len(bad) - 1} more)" if len(bad) > 1 else ""), "input": {"esc_case": [case[0], case[1]]}})
+        else:
+            res.count("oracle:escaped-json-text-equivalent")
+
+
 def explore(ctx):
     res = Result()
     res.rule = RULE
@@ -290,6 +354,7 @@ def explore(ctx):
                                      "real": {"decoded": _brief(d), k: _brief(o), "text": r_.get(k.split('_')[0] + "_text")}})
             else:
                 res.count("oracle:text-equivalent")
+    escaped_json_probe(res)
     return res
 
 
@@ -322,6 +387,11 @@ def witness(fid):
 
 def replay(failure):
     inp = failure["input"]
+    if "esc_case" in inp:
+        from .. import iso
+        bad = iso.map_isolated(_esc_child, [tuple(inp["esc_case"])], timeout=60.0)[0]
+        print(json.dumps({"case": inp["esc_case"], "differences": bad}, indent=1, ensure_ascii=True))
+        return bool(bad)
     if "s" in inp:
         job = {"prog": inp["prog"], "ops": [{"op": "strload", "s": inp["s"]}]}
     elif "wire" in inp:
